@@ -504,7 +504,7 @@ def build_trace_binary(ck):
                 ov["Replace"][k] = v
     ovp = os.path.join(d, "overlay.json")
     json.dump(ov, open(ovp, "w"))
-    return ck.build_gvh(tags=("verif", "veriftrace"), pkg="./cmd/gvh-thread", name="gvh_thread_trace", overlay=ovp)
+    return ck.build_gvh(tags=("verif", "veriftrace"), pkg="./cmd/gvh-thread", name="gvh_thread_trace" + ("_mut" if extra else ""), overlay=ovp)
 
 
 def normalise_trace(tr):
@@ -611,7 +611,9 @@ def par_resilient(binary, args, lines, workers=6, **kw):
 def run(tier, seed):
     ck = vlib.Check("C09", tier, seed, level="proof")
     ok_obl = ck.obligations(PROP, clean=False)
-    gvt, err = ck.build_gvh(pkg="./cmd/gvh-thread", name="gvh_thread")
+    mut = os.environ.get("VERIF_C09_OVERLAY")     # mutation experiments only: go build -overlay file
+    sfx = "_mut" if mut else ""
+    gvt, err = ck.build_gvh(pkg="./cmd/gvh-thread", name="gvh_thread" + sfx, overlay=mut)
     if gvt is None:
         ck.violation("harness does not build against /repo", {"kind": "build", "stderr": err[-3000:]}, no_input=True)
         return ck.finish("n/a", TRUSTED, [])
@@ -642,12 +644,12 @@ def run(tier, seed):
     # deterministic slice of the next depth(s)
     nslice = 0
     deeper = enum_scripts(depth_full + 1)
-    stride = 37 if tier == "quick" else 3
+    stride = 151 if tier == "quick" else 3
     for i, sc in enumerate(deeper):
         if len(sc) == depth_full + 1 and i % stride == 0:
             scripts.append((sc, i % 2 == 1))
             nslice += 1
-    nrand = 2000 if tier == "quick" else 60000
+    nrand = 800 if tier == "quick" else 60000
     for i in range(nrand):
         scripts.append((rand_script(ck.rng), i % 3 != 0))
     ck.log("scripts: corpus %d, all of depth<=%d: %d, slice of depth %d: %d (of %d), random %d" % (
@@ -662,7 +664,16 @@ def run(tier, seed):
     for i, src in enumerate(sources):
         exp = norm_model(model[i])[3]
         glines.append("s%d %s exp=%s" % (i, hexsrc(src), exp))
-    impl = par_resilient(gvt, ["script"], glines, per_case_timeout=20)
+    # probe batch first: when the implementation hangs/crashes on many scripts (e.g. a broken status
+    # test) every case costs a watchdog timeout — report and do not run the remaining thousands
+    nprobe = min(len(glines), 360)
+    impl = par_resilient(gvt, ["script"], glines[:nprobe], workers=12, per_case_timeout=6)
+    nbad = sum(1 for o in impl if o.split(" ")[1:2] in (["HANG"], ["CRASH"]))
+    if nbad > 5:
+        ck.log("(a) %d of the first %d scripts hang/crash: skipping the remaining scripts" % (nbad, nprobe))
+        scripts, sources, model = scripts[:nprobe], sources[:nprobe], model[:nprobe]
+    else:
+        impl += par_resilient(gvt, ["script"], glines[nprobe:], per_case_timeout=20)
     ndiff = 0
     gleft = 0
     for i, (sc, tbc) in enumerate(scripts):
@@ -679,7 +690,7 @@ def run(tier, seed):
             if ndiff <= 3:
                 ck.violation("coroutine script makes the implementation hang or crash: " + (impl[i][:200] if i < len(impl) else "no output"),
                              {"kind": "Go!=S", "engine": "thread", "script": ";".join(sc), "tbc": tbc, "lua": sources[i],
-                              "impl": impl[i] if i < len(impl) else None, "model": model[i], "theorems": ["C09_no_deadlock_partial"]})
+                              "impl": impl[i] if i < len(impl) else None, "model": model[i], "theorems": ["C09_no_deadlock_refuted (the only modelled deadlock is the known one)"]})
             continue
         if (g[0], g[1], g[2]) != (m[0], m[1], m[2]):
             ndiff += 1
@@ -687,7 +698,7 @@ def run(tier, seed):
                 small = shrink_script(sc, tbc, gvt, oracle)
                 ck.violation("coroutine script: implementation differs from the sequential coroutine semantics (values/statuses/errors)",
                              {"kind": "Go!=S", "engine": "thread", "script": ";".join(small[0]), "tbc": tbc, "lua": render_lua(small[0], tbc),
-                              "impl": small[1], "model": small[2], "theorems": ["C09_S_*"]})
+                              "impl": small[1], "model": small[2], "theorems": ["C09_values_transferred_exactly", "C09_status_table", "C09_resume_guard"]})
         elif g[3] != m[3]:
             gleft += 1
             if gleft <= 3:
@@ -723,7 +734,7 @@ def run(tier, seed):
             else:
                 ck.violation("special coroutine script %s: %s" % (nm, bad),
                              {"kind": "Go!=S", "engine": "thread", "special": nm, "lua": lua, "limits": lim, "impl": o[:1500], "expected_prefix": ex,
-                              "theorems": ["C09_no_deadlock_partial"]})
+                              "theorems": ["C09_no_deadlock_refuted (the only modelled deadlock is the known one)"]})
         else:
             for k in ck.known:
                 if k.get("status") == "open" and k.get("match", {}).get("special") == nm:
@@ -732,11 +743,11 @@ def run(tier, seed):
 
     # ---------------- (b) race build
     race_runs = race_reports = 0
-    gvr, err = ck.build_gvh(race=True, name="gvh_race")
+    gvr, err = ck.build_gvh(race=True, name="gvh_race" + sfx, overlay=mut)
     if gvr is None:
         ck.violation("race build of the harness fails", {"kind": "build", "stderr": err[-3000:]}, no_input=True)
     else:
-        nrace = 250 if tier == "quick" else 6000
+        nrace = 64 if tier == "quick" else 6000
         step = max(1, len(scripts) // nrace)
         sel = list(range(0, len(scripts), step))[:nrace]
         # always include the one-line wrap script of the fixed finding
@@ -765,7 +776,7 @@ def run(tier, seed):
             race_reports += len(reports)
             if reports:
                 r0 = reports[0]
-                fns = re.findall(r"^\s+(github\.com/arnodel/golua/[^\s(]+)", r0, re.M)
+                fns = [x.replace("github.com/arnodel/golua/", "") for x in re.findall(r"^\s+(github\.com/arnodel/golua/\S+?)\(\)", r0, re.M)]
                 ck.violation("data race reported by the Go race detector (GOMAXPROCS=%d): %s" % (procs, " / ".join(fns[:4])),
                              {"kind": "Go!=S", "engine": "lua-race", "GOMAXPROCS": procs, "report": r0[:4000], "reports": len(reports),
                               "minimal_lua": wrap1, "theorems": ["C09_baton_unique"]})
@@ -783,10 +794,10 @@ def run(tier, seed):
     if gtr is None:
         ck.violation("runtime/thread.go can no longer be instrumented/built for trace validation: %s" % (inst_err or err[-400:]),
                      {"kind": "Go!=IM", "correspondence": "Go≈IM/thread-trace", "detail": inst_err or err[-3000:],
-                      "theorems_no_longer_about_this_code": ["C09_baton_unique", "C09_no_deadlock_partial", "C09_status_table",
+                      "theorems_no_longer_about_this_code": ["C09_baton_unique", "C09_status_table",
                                                               "C09_no_goroutine_left", "C09_values_transferred_exactly"]}, no_input=True)
     else:
-        ntr = 1200 if tier == "quick" else 40000
+        ntr = 500 if tier == "quick" else 40000
         step = max(1, len(scripts) // ntr)
         sel = list(range(0, len(scripts), step))[:ntr]
         tl = ["s%d %s exp=%s" % (i, hexsrc(sources[i]), norm_model(model[i])[3]) for i in sel]
